@@ -159,6 +159,7 @@ class Cfg(object):
 
 
 TOKEN_LEN = 8
+SHARED_FILTERS = ("shared/filter/used/again/and/again/in/every/list/+/one", "shared/filter/used/again/and/again/in/every/list/#")
 
 
 def token_of(data):
@@ -510,6 +511,8 @@ class World(object):
 
     def _topic(self, kind, tok):
         base = "t/~%06d~" % tok
+        if kind == "same":       # applications publish to the same few topics all the time (the payload carries the token)
+            return "shared/topic/that/many/publishes/go/to/again/and/again"
         if kind == "uni":
             return base + "/é€\U0001f600"
         if kind == "long":
@@ -543,7 +546,8 @@ class World(object):
         for k in range(n if shape == "list" else 1):
             tok = self._tok(c.a)
             toks.append(tok)
-            topics.append((self._topic(tkind, tok) + "/s", (qos + k) % 3))
+            # the first filter carries the token; the others are the same few strings in every call, as in real applications
+            topics.append((self._topic(tkind, tok) + "/s" if k == 0 else SHARED_FILTERS[k % 2], (qos + k) % 3))
         # for the tuple and list shapes the separate qos argument is a decoy: the QoS of each
         # entry is the one inside the tuple (every other call passes a different value there)
         decoy = {"qos": (topics[0][1] + 1 + toks[0] % 2) % 3} if toks[0] % 2 else {}
@@ -561,7 +565,7 @@ class World(object):
         for k in range(n if shape == "list" else 1):
             tok = self._tok(c.a)
             toks.append(tok)
-            topics.append(self._topic(tkind, tok) + "/u")
+            topics.append(self._topic(tkind, tok) + "/u" if k == 0 else SHARED_FILTERS[k % 2])
         args = ((topics[0],), {}) if shape == "str" else ((list(topics),), {})
         info = {"tokens": toks, "topics": topics, "shape": shape}
         return self._api(c, "unsubscribe", c.proto.unsubscribe, args, info)
@@ -575,7 +579,10 @@ class World(object):
                      {"username": "user", "password": "secret"},
                      {"willTopic": "will/\u00e9", "willMessage": "", "willQoS": 2, "willRetain": True, "username": "u"})[variant]
         kw.update(extra)
-        cid = kw.pop("clientId", "cid-%d" % c.a)
+        default_cid = "cid-%d" % c.a
+        if self.cfg.seed and (self.cfg.seed // 11) % 3 == 0:
+            default_cid = "cid-%d-%d" % (c.a, c.idx)        # an application that takes a new client id for every connection
+        cid = kw.pop("clientId", default_cid)
         info = {"clean": clean, "keepalive": keepalive, "level": level, "clientId": cid,
                 "extra": dict(extra)}
         return self._api(c, "connect", c.proto.connect, ((cid,), kw), info)
@@ -819,9 +826,12 @@ class World(object):
     def s_connack(self, a, rc_=0, sp=False):
         c = self.live.get(a)
         was = c is not None and c.connect_pending and c.phase == "open"
+        if c is not None and c.phase == "open":
+            # this CONNACK answers the CONNECT that is pending now (a CONNACK nobody is waiting for is just a
+            # foreign packet); a CONNECT written while it is being processed (connect() again from the errback
+            # of a refusal) is pending afterwards
+            c.connect_pending = False
         sent = self._send(a, {"t": "CONNACK", "rc": rc_, "session": sp})
-        if sent and c is not None:
-            c.connect_pending = False     # (a CONNACK nobody is waiting for is just a foreign packet)
         if sent and rc_ == 0 and was and c.phase == "open" and self.live.get(a) is c:
             c.connack_ok = True
 
@@ -923,6 +933,30 @@ class World(object):
         if self._send(a, pkt) and qos == 2 and c is not None and c.connack_ok and not (c.clean and c.phase != "open"):
             sh.inq2.setdefault(ident, "sent")
             sh.inq2_pkt[ident] = pkt
+
+    def s_inburst(self, a, qoss=(1, 1)):
+        """Several inbound PUBLISH packets (fresh identifiers) in ONE segment."""
+        sh = self.shadow[a]
+        c = self.live.get(a)
+        if c is None:
+            return self.ev("skip", why="no connection")
+        pkts = []
+        for qos in qoss:
+            tok = self._tok(a)
+            ident = None
+            if qos:
+                sh.in_next = sh.in_next % 65535 + 1
+                ident = sh.in_next
+                sh.in_last = ident
+            pkts.append({"t": "PUBLISH", "qos": qos, "dup": False, "retain": False, "topic": self._topic("plain", tok), "id": ident,
+                         "payload": b"~%06d~" % tok + b"ib"})
+        data = b"".join(rc.encode(p, c.level) for p in pkts)
+        ok_before = c.connack_ok and not (c.clean and c.phase != "open")
+        if self._feed(c, data, pkts, [data]) and ok_before:
+            for p in pkts:
+                if p["qos"] == 2:
+                    sh.inq2.setdefault(p["id"], "sent")
+                    sh.inq2_pkt[p["id"]] = p
 
     def s_inrel(self, a, sel="known", dup=False):
         sh = self.shadow[a]
@@ -1089,7 +1123,7 @@ def _cause_of(op):
         return "timer"
     if op in ("lose",):
         return "loss"
-    if op in ("connack", "ack", "dupack", "stray", "early", "cross", "preack", "inpub", "inrel", "pingresp", "raw", "stream"):
+    if op in ("connack", "ack", "dupack", "stray", "early", "cross", "preack", "inpub", "inburst", "inrel", "pingresp", "raw", "stream"):
         return "inbound"
     return "api"
 
